@@ -184,7 +184,7 @@ func r15b(c *RuleCtx) {
 	// the reported size is Count() of that writer, read after the footer was written
 	var footer ssa.CallInstruction
 	for _, cs := range callSites(fn) {
-		if f := staticCallee(cs); f != nil && f.Name() == "persistFooter" {
+		if f := staticCallee(cs); f != nil && namedFn(f, "persistFooter") {
 			footer = cs
 		}
 	}
@@ -265,7 +265,7 @@ func r15c(c *RuleCtx) {
 					if callee == nil || !c.p.InZap(callee) {
 						return
 					}
-					if callee.Name() == "loadFieldDocValueReader" {
+					if namedFn(callee, "SegmentBase.loadFieldDocValueReader") {
 						e.callsLoader = true
 						return
 					}
@@ -479,7 +479,7 @@ func r17FieldsSameProvenance(c *RuleCtx, fn *ssa.Function, prm *ssa.Parameter) b
 				if k, ok := constString(mu.Key); ok && k == "fieldsSame" {
 					if ex, ok := root(mu.Value).(*ssa.Extract); ok {
 						if call, ok := ex.Tuple.(*ssa.Call); ok {
-							if f := call.Call.StaticCallee(); f != nil && f.Name() == "mergeFields" && ex.Index == 0 {
+							if f := call.Call.StaticCallee(); f != nil && namedFn(f, "mergeFields") && ex.Index == 0 {
 								bound = true
 							}
 						}
@@ -767,7 +767,7 @@ func ruleR24() *Rule {
 			total := 0
 			readerFns := map[string]bool{}
 			for _, fn := range p.ZapFuncs {
-				if fn.Name() == "mergeStoredAndRemap" {
+				if namedFn(fn, "mergeStoredAndRemap") {
 					continue
 				}
 				eachInstr(fn, func(_ *ssa.BasicBlock, in ssa.Instruction) {
